@@ -132,9 +132,9 @@ def canon_concrete(ex, v):
             return "ERR " + err_kind(ex, v.fields[0])
         if v.ty == "Number":
             if v.variant == "Integer":
-                return "I %d" % cint(v.fields[0])
+                return "I %d" % cint(v.fields[0], ex)
             if v.variant == "Rational":
-                return "Q %d %d" % (cint(v.fields[0]), cint(v.fields[1]))
+                return "Q %d %d" % (cint(v.fields[0], ex), cint(v.fields[1], ex))
             return "F %s" % fp_bits(v.fields[0])
         if v.ty == "Value":
             if v.variant == "Number":
@@ -168,12 +168,18 @@ def err_kind(ex, e):
     return "?" + repr(e)[:80]
 
 
-def cint(t):
+def cint(t, ex=None):
     t = z3.simplify(t) if not isinstance(t, int) else t
     if isinstance(t, int):
         return t
     if z3.is_int_value(t):
         return t.as_long()
+    if ex is not None:
+        # determined by the (concrete) inputs through definitional constraints: ask the solver, and make sure it is unique
+        if ex.ctx.check() == z3.sat:
+            v = ex.ctx.model().eval(t, model_completion=True)
+            if z3.is_int_value(v) and ex.ctx.check(t != v) == z3.unsat:
+                return v.as_long()
     raise Unsupported("not concrete: %s" % t)
 
 
